@@ -3,7 +3,7 @@
 Model: coq/Http/EndToEnd.v (composition over Codec/Render.v, Http/Router.v, Gen/TablesCodec.v, Gen/TablesRouter.v); proofs
 coq/Proofs/EndToEndProofs.v; property coq/Props/C02.v; glue coq/Corr/C02Corr.v; driver harness/httpdrv (mode c02) compiled
 against the bindings the REAL generator emits for the resource family of checks/family.py (checks/httpdrv.py)."""
-import httpdrv
+import httpdrv, roothttp
 from generic import run_check
 
 
@@ -17,7 +17,7 @@ def main(tier, seed, replay):
         tables=["TablesCodec", "TablesRouter"],
         model_targets=["Http/EndToEnd.vo", "Corr/C02Corr.vo"],
         prop_module="Props.C02",
-        driver="httpdrv", build=build,
+        driver="httpdrv", build=build, post=roothttp.post("c02"),
         corr_name="corr:request-and-dispatch (model on_wire = verb, request URI with the ROR2-encoded keys and the sorted query, X-RestLi-Method, "
                   "X-HTTP-Method-Override vs the request the recording transport saw; Router.route_mount of as_served on the family's registration "
                   "tree vs the resource method that ran)",
